@@ -381,6 +381,74 @@ pub fn far_timeline_probe(rng: &mut Rng) -> Vec<Finding> {
     f
 }
 
+// -------------------------------------------------------------------------------------------------
+// C02 with a second builder in another thread (the clock is process-global, simulations are serialised by des)
+// -------------------------------------------------------------------------------------------------
+
+struct SlowApp {
+    log: Vec<(des::prelude::SimTime, des::prelude::SimTime, des::prelude::SimTime)>,
+}
+struct SlowEv(des::prelude::SimTime);
+impl des::runtime::Application for SlowApp {
+    type EventSet = SlowEv;
+    type Lifecycle = ();
+}
+impl des::prelude::Event<SlowApp> for SlowEv {
+    fn handle(self, rt: &mut des::runtime::Runtime<SlowApp>) {
+        let before = des::prelude::SimTime::now();
+        // give the other thread time to call Builder::build while this simulation is running
+        std::thread::sleep(std::time::Duration::from_millis(2));
+        rt.app.log.push((self.0, before, des::prelude::SimTime::now()));
+    }
+}
+
+/// while one simulation runs, another thread builds a runtime with a different start time: that call has to wait for
+/// the running simulation and must not touch its clock
+pub fn concurrent_build_probe() -> Vec<Finding> {
+    use des::prelude::SimTime;
+    use des::runtime::Builder;
+    use std::time::Duration;
+    let (tx, rx) = std::sync::mpsc::channel::<()>();
+    let mut f: Vec<Finding> = Vec::new();
+    let result = std::thread::scope(|scope| {
+        let a = scope.spawn(move || {
+            let mut rt = Builder::seeded(1).quiet().build(SlowApp { log: Vec::new() });
+            for k in 1..=6u64 {
+                let at = SimTime::from_duration(Duration::from_secs(k));
+                rt.add_event(SlowEv(at), at);
+            }
+            let _ = tx.send(());
+            rt.run().map(|(app, _, _)| app.log).map_err(|_| ())
+        });
+        let b = scope.spawn(move || {
+            let _ = rx.recv();
+            // waits until the first runtime is gone
+            let rt = Builder::seeded(2).quiet().start_time(SimTime::from_duration(Duration::from_secs(500))).build(SlowApp { log: Vec::new() });
+            drop(rt);
+        });
+        let log = a.join();
+        let _ = b.join();
+        log
+    });
+    match result {
+        Err(_) => f.push(("C02", "run-panicked", "a simulation running while another thread builds a runtime panicked".into())),
+        Ok(Err(())) => f.push(("C02", "run-error", "a simulation running while another thread builds a runtime returned an error".into())),
+        Ok(Ok(log)) => {
+            if let Some((at, before, after)) = log.iter().find(|(at, b, a)| at != b || at != a) {
+                f.push((
+                    "C02",
+                    "now-differs",
+                    format!("while another thread was calling Builder::build: the handler of the event scheduled at {at} observed SimTime::now() = {before} when it started and {after} 2 ms (wall clock) later"),
+                ));
+            }
+            if log.len() != 6 {
+                f.push(("C02", "not-handled", format!("{} of 6 events handled while another thread was calling Builder::build", log.len())));
+            }
+        }
+    }
+    f
+}
+
 pub fn cmd_c02(args: &Args) -> Report {
     let mut rep = Report::new("C02");
     let mut rng = Rng::new(args.stream_seed("c02"));
@@ -392,6 +460,13 @@ pub fn cmd_c02(args: &Args) -> Report {
             6..=8 => 20 + rng.usize_below(max_events / 5 + 1),
             _ => max_events / 2 + rng.usize_below(max_events / 2 + 1),
         };
+        if i % 500 == 250 {
+            rep.count("runs_with_a_second_builder_in_another_thread", 1);
+            let findings = concurrent_build_probe();
+            if !report(&mut rep, "C02", findings, &json!({"driver": "desmon", "sub": "c02", "concurrent_build_probe": true, "note": "re-run the check with the same seed"})) {
+                break;
+            }
+        }
         if i % 20 == 10 {
             rep.count("runs_on_a_timeline_beyond_2_64_ns", 1);
             let findings = far_timeline_probe(&mut rng);
